@@ -16,7 +16,7 @@ def run_py(code, env=None, timeout=120):
     e = dict(os.environ)
     e["PYTHONPATH"] = os.path.join(REPO, "src") + os.pathsep + VERIF
     e.update(env or {})
-    p = subprocess.run([PY, "-W", "ignore", "-c", code], capture_output=True, text=True, env=e, timeout=timeout)
+    p = subprocess.run([PY, "-W", "ignore", "-"], input=code, capture_output=True, text=True, env=e, timeout=timeout)
     lines = [l for l in p.stdout.strip().splitlines() if l.strip()]
     if p.returncode != 0 or not lines:
         return {"error": (p.stderr or "")[-1500:], "stdout": p.stdout[-500:]}
@@ -24,6 +24,20 @@ def run_py(code, env=None, timeout=120):
         return json.loads(lines[-1])
     except ValueError:
         return {"error": "no JSON on last line", "stdout": p.stdout[-500:]}
+
+
+_so_cache = {}
+
+
+def build_c_cached(src_rel, name):
+    """one build per process, removed at exit"""
+    import atexit
+    key = (src_rel, name)
+    if key not in _so_cache:
+        so = build_c(src_rel, name)
+        _so_cache[key] = so
+        atexit.register(lambda p=so: os.path.exists(p) and os.unlink(p))
+    return _so_cache[key]
 
 
 def build_c(src_rel, name):
